@@ -8,7 +8,7 @@ import EmmyVerif.Drv.Util
 prog  := n decl^n block          decl := - | lit
 lit   := N | T | F | I<n> | D<k> | S<s> | B<id>
 block := { stmt* }
-stmt  := A x lit | P id x | I cond block else
+stmt  := A x lit | V x y | P id x | I cond block else
 else  := n | e block | i cond block else
 cond  := v x | y x tname neg | z x neg | q x lit neg | t x tname0 tname neg | ! cond | & cond cond | | cond cond
 ```
@@ -74,6 +74,7 @@ def parseStmt : Nat → Toks → Option (Stmt × Toks)
   | fuel + 1, ts =>
     match ts with
     | "A" :: x :: l :: r => do pure (.assign (← x.toNat?) (← parseLit l), r)
+    | "V" :: x :: y :: r => do pure (.assignVar (← x.toNat?) (← y.toNat?), r)
     | "P" :: i :: x :: r => do pure (.probe (← i.toNat?) (← x.toNat?), r)
     | "I" :: r => do
       let (c, r) ← parseCond (fuel + 1) r
@@ -137,6 +138,7 @@ def parseLStmt : Nat → Toks → Option (LStmt × Toks)
   | fuel + 1, ts =>
     match ts with
     | "A" :: x :: l :: r => do pure (.assign (← x.toNat?) (← parseLit l), r)
+    | "V" :: x :: y :: r => do pure (.assignVar (← x.toNat?) (← y.toNat?), r)
     | "P" :: i :: x :: r => do pure (.probe (← i.toNat?) (← x.toNat?), r)
     | "I" :: r => do
       let (c, r) ← parseCond (fuel + 1) r
